@@ -152,9 +152,105 @@ func addRoute(r fiber.Router, n *node, pat string, h fiber.Handler) {
 		r.Get(pat, h)
 	case kUSE:
 		r.Use(pat, h)
+	case kPOST:
+		r.Post(pat, h)
 	default:
 		r.All(pat, h)
 	}
+}
+
+// regItems registers items on r the way program prog spells them (mounts as written / as groups).
+func (e *exec) regItems(r fiber.Router, items []*node, subRoot bool, prog int, fc fiber.Config, id *int) {
+	for _, n := range items {
+		switch {
+		case n.T == 'r':
+			pat := n.Pat
+			if emptyAsRoot && subRoot && prog == progGroup && pat == "" {
+				pat = "/" // experiment only (C04_EMPTY_AS_ROOT=1): the other reading of an empty pattern in a sub-app
+			}
+			addRoute(r, n, pat, e.handlers[*id][b2i(n.Next)])
+			*id++
+		case n.T == 'g':
+			e.regItems(r.Group(n.Prefix), n.Items, false, prog, fc, id)
+		case prog == progGroup:
+			e.regItems(r.Group(n.Prefix), n.Items, true, prog, fc, id)
+		case prog == progMountLate:
+			sub := fiber.New(fc)
+			r.Use(n.Prefix, sub)
+			e.regItems(sub, n.Items, true, prog, fc, id)
+		case prog == progMountCfg:
+			// the parent's configuration governs mounted routes: the sub-app's own must not matter
+			oc := fc
+			oc.CaseSensitive, oc.StrictRouting = !fc.CaseSensitive, !fc.StrictRouting
+			sub := fiber.New(oc)
+			e.regItems(sub, n.Items, true, prog, fc, id)
+			r.Use(n.Prefix, sub)
+		default:
+			sub := fiber.New(fc)
+			e.regItems(sub, n.Items, true, prog, fc, id)
+			r.Use(n.Prefix, sub)
+		}
+	}
+}
+
+// runPhased runs the two-phase program (t.Late > 0) spelled as prog (progMount or progGroup): the
+// items before the split are registered, the application is started (app.Handler()) and serves
+// every request once; then the remaining top-level items are registered on the running
+// application, app.RebuildTree() is called (docs/api/app.md, dynamic route registration) and
+// every request is served again: the observations of this second round are recorded.
+func (e *exec) runPhased(t *tree, ti *treeInfo, c rcfg, prog int, into *obsSet) {
+	into.reset()
+	e.plan, e.pos, e.arities = nil, 0, e.arities[:0]
+	e.built++
+	e.inside = 0
+	fail := func(msg string) {
+		for range ti.paths {
+			for range methods {
+				into.add([]byte(msg+"|0||"), nil)
+			}
+		}
+	}
+	var app *fiber.App
+	var h fasthttp.RequestHandler
+	id := 0
+	fc := c.fiber()
+	if msg := catch("STARTUP-PANIC ", func() {
+		app = fiber.New(fc)
+		e.regItems(app, t.Items[:t.split()], false, prog, fc, &id)
+		h = app.Handler()
+	}); msg != "" {
+		fail(msg)
+		return
+	}
+	for _, path := range ti.paths {
+		for _, m := range methods {
+			e.call(h, m, path)
+		}
+	}
+	if msg := catch("LATE-REGISTRATION-PANIC ", func() {
+		e.regItems(app, t.Items[t.split():], false, prog, fc, &id)
+		app.RebuildTree()
+	}); msg != "" {
+		fail(msg)
+		return
+	}
+	e.inside = ti.lateMask(t)
+	for _, path := range ti.paths {
+		for _, m := range methods {
+			e.call(h, m, path)
+			into.add(e.tr, e.rp)
+		}
+	}
+}
+
+func catch(prefix string, fn func()) (msg string) {
+	defer func() {
+		if r := recover(); r != nil {
+			msg = prefix + panicText(r)
+		}
+	}()
+	fn()
+	return ""
 }
 
 // build constructs the program and runs its startup processing; a panic is returned as text.
@@ -171,40 +267,7 @@ func (e *exec) build(t *tree, c rcfg, prog int, plan map[int]int) (h fasthttp.Re
 	id := 0
 	switch prog {
 	case progMount, progMountLate, progGroup, progMountCfg:
-		var reg func(r fiber.Router, items []*node, subRoot bool)
-		reg = func(r fiber.Router, items []*node, subRoot bool) {
-			for _, n := range items {
-				switch {
-				case n.T == 'r':
-					pat := n.Pat
-					if emptyAsRoot && subRoot && prog == progGroup && pat == "" {
-						pat = "/" // experiment only (C04_EMPTY_AS_ROOT=1): the other reading of an empty pattern in a sub-app
-					}
-					addRoute(r, n, pat, e.handlers[id][b2i(n.Next)])
-					id++
-				case n.T == 'g':
-					reg(r.Group(n.Prefix), n.Items, false)
-				case prog == progGroup:
-					reg(r.Group(n.Prefix), n.Items, true)
-				case prog == progMountLate:
-					sub := fiber.New(fc)
-					r.Use(n.Prefix, sub)
-					reg(sub, n.Items, true)
-				case prog == progMountCfg:
-					// the parent's configuration governs mounted routes: the sub-app's own must not matter
-					oc := fc
-					oc.CaseSensitive, oc.StrictRouting = !fc.CaseSensitive, !fc.StrictRouting
-					sub := fiber.New(oc)
-					reg(sub, n.Items, true)
-					r.Use(n.Prefix, sub)
-				default:
-					sub := fiber.New(fc)
-					reg(sub, n.Items, true)
-					r.Use(n.Prefix, sub)
-				}
-			}
-		}
-		reg(app, t.Items, false)
+		e.regItems(app, t.Items, false, prog, fc, &id)
 	case progFlat:
 		var reg func(items []*node, acc string, depth int)
 		reg = func(items []*node, acc string, depth int) {
@@ -243,6 +306,8 @@ func (e *exec) build(t *tree, c rcfg, prog int, plan map[int]int) (h fasthttp.Re
 					switch n.Kind {
 					case kGET:
 						r.Get(hd)
+					case kPOST:
+						r.Post(hd)
 					case kUSE:
 						r.All(hd) // Register.All is documented as the middleware (prefix) registration
 					default:
